@@ -45,20 +45,21 @@ theorem interleave_invariant (env : Env) (P : Call → Prop) (Inv : FS → Prop)
 def Call.noPublish (cache : Path) (c : Call) : Prop := ∀ fs, ∀ q ∈ c.fileTargets fs, ¬ IsAddr cache q
 
 /-- Every call is either off the bucket or appends one whole framed record to it (or opens it). -/
-def Call.wholeRecords {R M : Type} (cd : Codec R M) (bucket : Path) (c : Call) : Prop :=
-  (∀ fs, ¬ c.touches fs bucket) ∨ c = .openAppend bucket ∨ ∃ r, c = .appendWrite bucket (cd.frame r)
+def Call.wholeRecords {R M : Type} (cd : Codec R M) (W : R → Prop) (bucket : Path) (c : Call) : Prop :=
+  (∀ fs, ¬ c.touches fs bucket) ∨ c = .openAppend bucket ∨
+    ∃ r, W r ∧ c = .appendWrite bucket (cd.frame r)
 
 /-- "The bucket is the initial bytes followed by whole framed records." -/
-def WholeRecords {R M : Type} (cd : Codec R M) (bucket : Path) (b0 : Bytes) (fs : FS) : Prop :=
-  ∃ rs, BucketIs fs bucket (cd.appendAll b0 rs)
+def WholeRecords {R M : Type} (cd : Codec R M) (W : R → Prop) (bucket : Path) (b0 : Bytes) (fs : FS) : Prop :=
+  ∃ rs, (∀ r ∈ rs, W r) ∧ BucketIs fs bucket (cd.appendAll b0 rs)
 
-theorem wholeRecords_step {R M : Type} (cd : Codec R M) (env : Env) (bucket : Path) (b0 : Bytes)
-    (c : Call) (fs : FS) (hc : c.wholeRecords cd bucket) (hi : WholeRecords cd bucket b0 fs) :
-    WholeRecords cd bucket b0 (exec env fs c).1 := by
-  obtain ⟨rs, hb⟩ := hi
-  rcases hc with h | rfl | ⟨r, rfl⟩
-  · exact ⟨rs, hb.frame (step_frame env fs _ c _ .ok bucket (h fs))⟩
-  · refine ⟨rs, ?_⟩
+theorem wholeRecords_step {R M : Type} (cd : Codec R M) (W : R → Prop) (env : Env) (bucket : Path)
+    (b0 : Bytes) (c : Call) (fs : FS) (hc : c.wholeRecords cd W bucket)
+    (hi : WholeRecords cd W bucket b0 fs) : WholeRecords cd W bucket b0 (exec env fs c).1 := by
+  obtain ⟨rs, hWs, hb⟩ := hi
+  rcases hc with h | rfl | ⟨r, hWr, rfl⟩
+  · exact ⟨rs, hWs, hb.frame (step_frame env fs _ c _ .ok bucket (h fs))⟩
+  · refine ⟨rs, hWs, ?_⟩
     simp only [exec]
     rcases hb with hf | ⟨he, hn⟩
     · simp [hf]; exact Or.inl hf
@@ -68,8 +69,12 @@ theorem wholeRecords_step {R M : Type} (cd : Codec R M) (env : Env) (bucket : Pa
       · exact Or.inr ⟨he, hn⟩
   · simp only [exec]
     rcases hb with hf | ⟨he, hn⟩
-    · refine ⟨rs ++ [r], Or.inl ?_⟩
-      simp [hf, Codec.appendAll_append, Codec.appendAll]
-    · exact ⟨rs, by simp [hn]; exact Or.inr ⟨he, hn⟩⟩
+    · refine ⟨rs ++ [r], ?_, Or.inl ?_⟩
+      · intro x hx
+        rcases List.mem_append.mp hx with h | h
+        · exact hWs x h
+        · rw [List.mem_singleton.mp h]; exact hWr
+      · simp [hf, Codec.appendAll_append, Codec.appendAll]
+    · exact ⟨rs, hWs, by simp [hn]; exact Or.inr ⟨he, hn⟩⟩
 
 end Cacache
